@@ -17,11 +17,11 @@ import time
 VERIF = os.path.dirname(os.path.dirname(os.path.abspath(__file__)))
 REPO = os.environ.get("VERIF_REPO", "/repo")
 LEAN = os.path.join(VERIF, "lean")
-BUILD = os.path.join(VERIF, ".build")
+BUILD = os.environ.get("VERIF_BUILD", os.path.join(VERIF, ".build"))
 EVID = os.path.join(VERIF, "evidence")
 CORPUS = os.path.join(VERIF, "corpus")
 HARNESS = os.path.join(VERIF, "harness")
-DRV = os.path.join(LEAN, ".lake", "build", "bin", "mythdrv")
+BIN = os.path.join(LEAN, ".lake", "build", "bin")
 
 ALLOWED_AXIOMS = {"propext", "Classical.choice", "Quot.sound"}
 FORBIDDEN = re.compile(
@@ -79,7 +79,8 @@ def sh(cmd, cwd=None, timeout=None, inp=None, env=None):
 class Lock:
     def __init__(self, name):
         os.makedirs(BUILD, exist_ok=True)
-        self.path = os.path.join(BUILD, name + ".lock")
+        # the lake lock is global (one Lean project), the others are per build directory
+        self.path = os.path.join(LEAN, ".lake.lock") if name == "lake" else os.path.join(BUILD, name + ".lock")
 
     def __enter__(self):
         self.f = open(self.path, "w")
@@ -191,10 +192,10 @@ def axiom_audit(pid, theorems):
 
 
 def driver(component, lines, timeout=600, args=None):
-    """pipe lines to `mythdrv <component>`; returns list of output lines"""
-    rc, out, err = sh([DRV, component] + (args or []), inp="\n".join(lines) + "\n", timeout=timeout)
+    """pipe lines to `drv_<component>`; returns list of output lines"""
+    rc, out, err = sh([os.path.join(BIN, "drv_" + component)] + (args or []), inp="\n".join(lines) + "\n", timeout=timeout)
     if rc != 0:
-        raise RuntimeError("mythdrv %s failed rc=%s: %s" % (component, rc, err[-400:]))
+        raise RuntimeError("drv_%s failed rc=%s: %s" % (component, rc, err[-400:]))
     return out.splitlines()
 
 
@@ -365,10 +366,10 @@ def finish(res):
     return 0
 
 
-def prove(res, extra_modules=()):
-    """steps 2 of a run: build Properties/<pid> and the driver, audit axioms"""
+def prove(res, drivers=(), extra_modules=()):
+    """step 2 of a run: build Properties/<pid> and the drivers it uses (drv_<name>), audit axioms"""
     pid = res.pid
-    ok, log = lean_build(["MythVerif.Properties." + pid, "mythdrv"] + list(extra_modules))
+    ok, log = lean_build(["MythVerif.Properties." + pid] + ["drv_" + d for d in drivers] + list(extra_modules))
     thms = property_theorems(pid)
     res.cov["obligations"] = len(thms)
     res.cov["checker_cmd"] = "cd lean && lake build MythVerif.Properties.%s && lake env lean <#print axioms for %d theorems>" % (pid, len(thms))
